@@ -216,6 +216,7 @@ func init() {
 	reg("conc-l1-niljob", "ConcurrentQueue limit 1: one producer, slow jobs 0, 2, 3 and a nil job at position 1, every batch split, a WaitIdle caller: the jobs behind the nil job still run, in order, and the queue becomes idle", 2, 3, concBodyNil([][]int{{0, 1, 2, 3}}, 1, true, false, true, 0, false, 1))
 	reg("conc-l2-init5", "ConcurrentQueue limit 2 constructed with 5 initial jobs (more than limit+1: the constructor has to put jobs back), a sixth job enqueued, a WaitIdle caller: per-producer start order, every job exactly once", 1, 2, concBodyInit([][]int{{0, 1, 2, 3, 4, 5}}, 2, true, false, true, 5))
 	reg("conc-l1-init4", "ConcurrentQueue limit 1 constructed with 4 initial jobs: they start in the order given", 2, 3, concBodyInit([][]int{{0, 1, 2, 3}}, 1, true, false, false, 4))
+	reg("conc-lneg-idle", "ConcurrentQueue with a negative limit (documented: unlimited): one producer, 3 jobs in every batch split, a WaitIdle caller", 1, 2, concBody([][]int{{0, 1, 2}}, -1, true, false, true))
 	reg("conc-l0-idle", "ConcurrentQueue unlimited: one producer, 3 jobs in every batch split, a WaitIdle caller", 1, 2, concBody([][]int{{0, 1, 2}}, 0, true, false, true))
 	reg("conc-l1-watch", "ConcurrentQueue limit 1: one producer, 3 instantaneous jobs in every batch split, a WatchState watcher", 2, 3, concBody([][]int{{0, 1, 2}}, 1, false, true, false))
 	reg("conc-l2-watch", "ConcurrentQueue limit 2: one producer, 3 jobs, a WatchState watcher", 1, 2, concBody([][]int{{0, 1, 2}}, 2, false, true, true))
